@@ -48,7 +48,7 @@ theorem asleep_contributes_nothing (m : Sys ℝ) (i : StepIn ℝ) (name : String
     rfl
   refine ⟨?_, ?_, ?_⟩
   · rw [modStep_biases, hU]; rfl
-  · rw [modStep_energy, hU]; simp only [List.map_cons, List.map_nil, List.sum_cons, List.sum_nil, add_zero]; exact zero_lit
+  · rw [modStep_energy, hU]; simp only [List.map_cons, List.map_nil, List.sum_cons, List.sum_nil, add_zero, zero_lit, ite_self]
   · intro a
     rw [modStep_atomF, lookupF_atomFOf, hU]
     exact atomSum_zero _ _ _ _ (fun k => lookupF_nil k)
@@ -62,10 +62,26 @@ theorem histogram_contributes_nothing (m : Sys ℝ) (i : StepIn ℝ) (name : Str
     · exact ⟨_, by simp only [updAt, hb, List.map_cons, List.map_nil, updOne, hs, biasUpdate]; rfl⟩
     · exact ⟨_, by simp only [updAt, hb, List.map_cons, List.map_nil, updOne, hs]; rfl⟩
   refine ⟨?_, ?_⟩
-  · rw [modStep_energy, hU]; simp only [List.map_cons, List.map_nil, List.sum_cons, List.sum_nil, add_zero]; exact zero_lit
+  · rw [modStep_energy, hU]; simp only [List.map_cons, List.map_nil, List.sum_cons, List.sum_nil, add_zero, zero_lit, ite_self]
   · intro a
     rw [modStep_atomF, lookupF_atomFOf, hU]
     exact atomSum_zero _ _ _ _ (fun k => lookupF_nil k)
+
+/-- an ABF bias with `applyBias off` (declared non-biasing) keeps collecting samples but contributes neither energy
+    nor force to what the engine receives -/
+theorem applyBias_off_contributes_nothing (m : Sys ℝ) (i : StepIn ℝ) (name : String) (idx : List Nat) (p : AbfParams ℝ)
+    (s : AbfState ℝ) (hb : m.biases = [(name, .abf idx p s)]) (hoff : p.applyBias = false) :
+    (modStep m i).2.energy = 0 ∧ ∀ a, lookupF (modStep m i).2.atomF a = 0 := by
+  obtain ⟨s', e, kvs, hU, hk⟩ := abf_off_updAt m i name idx p s hb hoff
+  refine ⟨?_, ?_⟩
+  · rw [modStep_energy, hU]
+    simp [Bias.applies, hoff]
+  · intro a
+    apply atomF_zero_of_kvSum
+    intro x hx k
+    rw [hU, List.mem_singleton] at hx
+    subst hx
+    exact hk k
 
 /-! ## superposition -/
 
